@@ -424,7 +424,8 @@ func maskDst(e *IsaEntry) (key, field string) {
 func (c *Ctx) isaRequires(st *State, e *IsaEntry) {
 	w := c.W
 	inst := c.UF("G_inst", SRef)
-	for opn, width := range e.Ops {
+	for _, opn := range sortedKeys(e.Ops) {
+		width := e.Ops[opn]
 		fld, ok := isaOperandField[opn]
 		if !ok {
 			panic(unsupported("isa %s: unknown operand %s", e.Name, opn))
@@ -587,7 +588,9 @@ func isaObligations(f *Frame, rst *State, ct *Contract, post *Scope) {
 	}
 	sc := evalAt(lane0)
 	skip := map[string]bool{}
-	for key, g := range map[string]string{"SCC": "G_scc", "VCC": "G_vcc", "EXEC": "G_exec", "PC": "G_pc", "M0": "G_m0"} {
+	effGhost := map[string]string{"SCC": "G_scc", "VCC": "G_vcc", "EXEC": "G_exec", "PC": "G_pc", "M0": "G_m0"}
+	for _, key := range sortedKeys(effGhost) {
+		g := effGhost[key]
 		if ex, ok := e.Eff[key]; ok {
 			if ex.Op == "any" {
 				skip[g] = true
@@ -659,7 +662,8 @@ func isaObligations(f *Frame, rst *State, ct *Contract, post *Scope) {
 		}
 	}
 	// heap frame: an ALU handler must not modify Go-level memory (instruction, operands)
-	for n, final := range rst.mem {
+	for _, n := range sortedKeys(rst.mem) {
+		final := rst.mem[n]
 		if strings.HasPrefix(n, "G_") {
 			continue
 		}
@@ -712,7 +716,7 @@ func (f *Frame) isaInputsAt(entry *State, e *IsaEntry, lane Term) map[string]Ter
 	inst := c.UF("G_inst", SRef)
 	out := map[string]Term{"SCC": c.ghost(entry, "G_scc"), "VCC": c.ghost(entry, "G_vcc"), "EXEC": c.ghost(entry, "G_exec"),
 		"PC": c.ghost(entry, "G_pc"), "M0": c.ghost(entry, "G_m0")}
-	for opn := range e.Ops {
+	for _, opn := range sortedKeys(e.Ops) {
 		op := c.instField(entry, inst, isaOperandField[opn])
 		d := c.operandDesc(entry, op)
 		out[opn+".type"] = d.ot
@@ -763,7 +767,8 @@ func newIsaEval(c *Ctx, e *IsaEntry, entry *State) *isaEval {
 			walk(a)
 		}
 	}
-	for _, x := range e.Eff {
+	for _, effKey := range sortedKeys(e.Eff) {
+		x := e.Eff[effKey]
 		walk(x)
 	}
 	for _, l := range e.Lets {
@@ -779,7 +784,8 @@ func (ev *isaEval) evalAt(lane Term) *Scope {
 	c, e, entry := ev.c, ev.e, ev.entry
 	u64, u32, u8 := types.Typ[types.Uint64], types.Typ[types.Uint32], types.Typ[types.Uint8]
 	sc := &Scope{c: c, fr: nil, st: entry, old: entry, vars: map[string]*Val{}}
-	for opn, fld := range isaOperandField {
+	for _, opn := range sortedKeys(isaOperandField) {
+		fld := isaOperandField[opn]
 		if !ev.used[opn] && !(opn == "D" && ev.used["D0"]) {
 			continue
 		}
@@ -842,7 +848,7 @@ func isaClassVars(c *Ctx, st *State, e *IsaEntry, sc *Scope) {
 	w := c.W
 	inst := c.UF("G_inst", SRef)
 	boolT := types.Typ[types.Bool]
-	for opn := range e.Ops {
+	for _, opn := range sortedKeys(e.Ops) {
 		op := c.instField(st, inst, isaOperandField[opn])
 		d := c.operandDesc(st, op)
 		isInt := Eq(d.ot, BVLitI(w.instsConst("IntOperand"), 64))
@@ -856,3 +862,4 @@ func isaClassVars(c *Ctx, st *State, e *IsaEntry, sc *Scope) {
 	sc.vars["VCC"] = scalar(c.ghost(st, "G_vcc"), types.Typ[types.Uint64])
 	sc.vars["EXEC"] = scalar(c.ghost(st, "G_exec"), types.Typ[types.Uint64])
 }
+
